@@ -56,8 +56,8 @@ fn fnv(s: &str) -> u64 {
 }
 
 pub fn write_replay(property: &str, tier: Tier, sig: &str, body: Value) -> String {
-    let _ = std::fs::create_dir_all(format!("{}/replays", crate::root()));
-    let path = format!("{}/replays/{}-{:016x}.json", crate::root(), property, fnv(sig));
+    let _ = std::fs::create_dir_all(format!("{}/{}replays", crate::root(), alt()));
+    let path = format!("{}/{}replays/{}-{:016x}.json", crate::root(), alt(), property, fnv(sig));
     let mut v = body;
     v["property"] = json!(property);
     v["tier"] = json!(tier.name());
@@ -65,6 +65,15 @@ pub fn write_replay(property: &str, tier: Tier, sig: &str, body: Value) -> Strin
     v["how"] = json!(format!("cd {} && ./check replay {}", crate::root(), path));
     let _ = std::fs::write(&path, serde_json::to_string_pretty(&v).unwrap());
     path
+}
+
+/// tooling runs against a scratch copy of the repository (VERIF_REPO) keep their output apart from the real one
+fn alt() -> &'static str {
+    if std::env::var("VERIF_REPO").is_ok() {
+        ".alt/"
+    } else {
+        ""
+    }
 }
 
 pub struct Evidence {
@@ -78,7 +87,7 @@ pub struct Evidence {
 }
 
 pub fn write_evidence(e: &Evidence) {
-    let _ = std::fs::create_dir_all(format!("{}/evidence", crate::root()));
+    let _ = std::fs::create_dir_all(format!("{}/{}evidence", crate::root(), alt()));
     let seed: i64 = std::env::var("VERIF_SEED").ok().and_then(|s| s.parse().ok()).unwrap_or(0);
     let v = json!({
         "property_id": e.property,
@@ -90,7 +99,7 @@ pub fn write_evidence(e: &Evidence) {
         "wall_s": e.wall_s,
         "violations": e.violations,
     });
-    let path = format!("{}/evidence/{}.json", crate::root(), e.property);
+    let path = format!("{}/{}evidence/{}.json", crate::root(), alt(), e.property);
     std::fs::write(&path, serde_json::to_string_pretty(&v).unwrap()).expect("write evidence");
 }
 
